@@ -252,6 +252,9 @@ class SimSelector(object):
 
     def unregister(self, fileobj):
         self.sim.sync_point("sel.unregister")
+        if fileobj not in self._map and fileobj.state == "closed":
+            # selectors._fileobj_lookup: a closed socket that is not in the map cannot be looked up at all
+            raise ValueError("Invalid file descriptor: -1")
         try:
             key = self._map.pop(fileobj)
         except KeyError:
@@ -268,6 +271,8 @@ class SimSelector(object):
 
     def modify(self, fileobj, events, data=None):
         self.sim.sync_point("sel.modify")
+        if fileobj not in self._map and fileobj.state == "closed":
+            raise ValueError("Invalid file descriptor: -1")
         try:
             key = self._map[fileobj]
         except KeyError:
